@@ -525,7 +525,12 @@ class _Eval:
         return ("attr", v, e.attr)
 
     def e_Subscript(self, e):
-        return ("sub", self.expr(e.value), self.expr(e.slice))
+        v, k = self.expr(e.value), self.expr(e.slice)
+        if k == ("const", 0) and v[0] == "attr" and v[2] == "shape":
+            return nrows(v[1])  # x.shape[0] and len(x) are the same number: one canonical spelling
+        if k[0] == "slice" and v[0] == "attr" and v[2] == "iloc":
+            return ("sub", v[1], k)  # frame.iloc[a:b] and frame[a:b] are the same positional row slice
+        return ("sub", v, k)
 
     def e_Slice(self, e):
         f = lambda x: self.expr(x) if x is not None else ("const", None)  # noqa: E731
@@ -670,6 +675,33 @@ class _Eval:
             ft = ("attr", ("global", "super"), f.attr)
         else:
             ft = self.expr(f)
+        if (kws or args) and self.b.resolver is not None and not any(a_[0] == "starred" for a_ in args):
+            # a call of a repository function: keywords that name the next positional parameters are the same call as the positional
+            # form - one canonical spelling (leading positional arguments, the rest by keyword)
+            try:
+                cs = self.b.resolver.resolve_call(self.func, e, self.self_cls)
+            except Exception:
+                cs = []
+            if len(cs) == 1 and isinstance(cs[0], FuncInfo) and not cs[0].has_vararg:
+                cal = cs[0]
+                params = cal.params[1:] if (cal.cls is not None and not _is_static(cal) and cal.params[:1] in (["self"], ["cls"])) else cal.params
+                named = {k_: v_ for k_, v_ in kws if k_ is not None}
+                pos = list(args)
+                for p_ in params[len(pos):]:
+                    if p_ in named:
+                        pos.append(named[p_])
+                    else:
+                        break
+                # canonical: the longest positional prefix AND every bound parameter by name (so that a rule may read an argument by
+                # position or by name, whichever way the call is spelled)
+                for p_, v_ in zip(params, pos):
+                    named[p_] = v_
+                args = tuple(pos)
+                kws = tuple(sorted(named.items(), key=lambda kv: kv[0])) + tuple(kv for kv in kws if kv[0] is None)
+        if ft[0] == "attr" and ft[2] == "format" and ft[1][0] == "const" and isinstance(ft[1][1], str):
+            tpl = _format_template(ft[1][1], args, kws)
+            if tpl is not None:
+                return tpl  # "a_{}_b".format(x) is the same string as f"a_{x}_b"
         if self._constructor_like(f, ft):
             # object identity: two syntactically equal constructor calls create two objects
             kws = kws + (("#new", ("const", self.b.site_id(e))),)
@@ -860,6 +892,63 @@ def _assigned_self_attrs(stmts):
 
 # ---------------------------------------------------------------------------------------------
 # term utilities
+
+def repo_call(fterm, named_args):
+    """canonical term of a call of a repository function whose arguments are all bound positionally in the source or not - the def-use
+    engine writes such calls with the longest positional prefix AND every bound parameter by name (see _Eval.e_Call):
+    repo_call(('attr', self, 'm'), [('a', A), ('b', B)])  ==  term of  self.m(A, B) / self.m(A, b=B) / self.m(a=A, b=B)"""
+    return ("call", fterm, tuple(v for _, v in named_args), tuple(sorted(named_args, key=lambda kv: kv[0])))
+
+
+def nrows(x):
+    """canonical term for the number of rows of a frame / array: `x.shape[0]` and `len(x)` both read as len(x)"""
+    return ("call", ("global", "len"), (x,), ())
+
+
+def _format_template(template, args, kws):
+    """'..{}..{name}..'.format(a, name=b) -> the f-string template term (None when a field has a conversion / format spec / attribute
+    access, or cannot be bound)"""
+    import string
+    parts, auto = [], 0
+    named = {k_: v_ for k_, v_ in kws if k_ is not None}
+    try:
+        fields = list(string.Formatter().parse(template))
+    except ValueError:
+        return None
+    for lit, field, spec, conv in fields:
+        if lit:
+            parts.append(("const", lit))
+        if field is None:
+            continue
+        if spec or conv:
+            return None
+        if field == "":
+            if auto >= len(args):
+                return None
+            parts.append(args[auto])
+            auto += 1
+        elif field.isdigit():
+            if int(field) >= len(args):
+                return None
+            parts.append(args[int(field)])
+        elif field.isidentifier() and field in named:
+            parts.append(named[field])
+        else:
+            return None
+    out = []
+    for p in parts:
+        if p[0] == "fstr":
+            out.extend(p[1])
+        elif out and p[0] == "const" and out[-1][0] == "const" and isinstance(p[1], str) and isinstance(out[-1][1], str):
+            out[-1] = ("const", out[-1][1] + p[1])
+        else:
+            out.append(p)
+    if len(out) == 1 and out[0][0] == "const":
+        return out[0]
+    if not out:
+        return ("const", "")
+    return ("fstr", tuple(out))
+
 
 def _stringy_parts(t):
     """parts of a term that is known to be a string built from pieces: a str constant, an f-string template, str(x)"""
